@@ -17,6 +17,10 @@ PARTS = [(f, w) for f in BUFFERED_FAMILIES for w in WHICH]  # 8 buffered classes
 # E = enter obj.buffered, B = enter backend-wide, X = exit innermost, _ = operation slot
 PATTERNS = [
     "ME___X", "MB___X", "ME_X_", "E___X", "B___X", "E_B_X_X", "B_E_X_X", "_E_X_", "E_X_E_X", "B_X_B_X", "E_E_X_X", "B_B_X_X", "E__", "B__", "_B_E_", "E_X_B_X",
+    # b = enter backend-wide with a capacity that forces flushes, g = write to a bystander collection (may push the buffer over capacity)
+    "b_g_X_", "b_gX_B_X", "bg_X_E_X", "b_g_B_XX",
+    # d = the program drops its only reference to the collection (and a garbage collection runs); later slots use a new object on the same file
+    "B_dX_", "B_d_X", "b_gd_X",
 ]
 
 SLOT_OPS = {
@@ -65,6 +69,10 @@ def _run(env, fam, which, pattern, sel, exc, args, x, y, v, w2):
     missing = pattern.startswith("M")  # the backing file does not exist yet
     w.add_file("f", MISSING if missing else doc0(which, x, y))
     w.add_obj("o", "f")
+    w.add_file("g", doc0(which, 7, 8))
+    w.add_obj("bystander", "g")
+    forced = False  # inside a context whose capacity may force flushes: writes before the exit are allowed
+    nby = 0
     names = ["file-missing"] if missing else []
     slot = 0
     entered_tok = None
@@ -80,6 +88,27 @@ def _run(env, fam, which, pattern, sel, exc, args, x, y, v, w2):
             elif c == "B":
                 w.enter_backend()
                 names.append("enter-backend")
+            elif c == "b":
+                w.enter_backend(1)
+                forced = True
+                names.append("enter-backend(capacity 1)")
+            elif c == "d":
+                import gc
+
+                del w.objs["o"]
+                gc.collect()
+                w.add_obj("o", "f")
+                names.append("drop-reference+gc, new object")
+            elif c == "g":
+                nby += 1
+                by = w.objs["bystander"]
+                if which == "dict":
+                    by["n%d" % nby] = nby
+                    w.ref["g"]["n%d" % nby] = nby
+                else:
+                    by.append(nby)
+                    w.ref["g"].append(nby)
+                names.append("bystander-write")
             elif c == "X":
                 use_exc = exc == 1 and idx == last_x
                 w.exit_innermost(KeyError("boom") if use_exc else None)
@@ -110,7 +139,9 @@ def _run(env, fam, which, pattern, sel, exc, args, x, y, v, w2):
         now_buffered = bool(w.stack)
         if now_buffered and not was_buffered:
             entered_tok = env.file_token("f")
-        if now_buffered and was_buffered and env.file_token("f") != entered_tok:
+        if not now_buffered:
+            forced = False
+        if now_buffered and was_buffered and not forced and env.file_token("f") != entered_tok:
             return finish(True, fail(lambda: f"{w.cls.__name__} program {names}: the file was written while a buffered context is open (effects {env.fs.log[-5:]!r})"))
         if not now_buffered:
             good, got, want = w.file_ok("f")
@@ -137,7 +168,15 @@ def _run(env, fam, which, pattern, sel, exc, args, x, y, v, w2):
     final = w.objs["o"]()
     if not eq_plain(final, plain(w.ref["f"])):
         return finish(True, fail(lambda: f"{w.cls.__name__} program {names}: collection reads {final!r}, logical content {w.ref['f']!r}"))
+    good, got, want = w.file_ok("g")
+    if not good:
+        return finish(True, fail(lambda: f"{w.cls.__name__} program {names}: bystander file holds {got!r}, logical content {want!r}"))
+    fresh = w.fam.make(env, which, "f")()
+    if not eq_plain(fresh, plain(w.ref["f"])):
+        return finish(True, fail(lambda: f"{w.cls.__name__} program {names}: a fresh collection reads {fresh!r}, logical content {w.ref['f']!r}"))
     size = w.cls.get_current_buffer_size()
+    if len(w.cls._buffer) != 0:
+        return finish(True, fail(lambda: f"{w.cls.__name__} program {names}: {len(w.cls._buffer)} buffer entries left after all contexts exited"))
     return finish(True, size == 0 or fail(lambda: f"{w.cls.__name__} program {names}: buffer size {size} after all contexts exited"))
 
 
@@ -179,7 +218,7 @@ def values(ctxk: int, s1: int, s2: int, x: int, y: int, v: int) -> bool:
 def plan(tier):
     t = 300 if tier == "quick" else 2400
     return [
-        {"fn": "prog", "nparts": len(PARTS) * (2 if tier == "quick" else 13), "timeout": t},
+        {"fn": "prog", "nparts": len(PARTS) * (4 if tier == "quick" else 23), "timeout": t},
         {"fn": "values", "nparts": len(PARTS), "timeout": t},
     ]
 
@@ -188,7 +227,7 @@ def smoke(tier):
     out = []
     for part in range(len(PARTS)):
         for pat in range(6):
-            out.append(("prog", (pat, (pat + part) % 8, (2 * pat + 1) % 8, (pat + part) % 4, pat % 2), part + (pat % 2) * len(PARTS), 2 * len(PARTS)))
+            out.append(("prog", (pat % 5, (pat + part) % 8, (2 * pat + 1) % 8, (pat + part) % 4, pat % 2), part + (pat % 4) * len(PARTS), 4 * len(PARTS)))
         out.append(("values", (part % 2, part % 8, (part + 3) % 8, 1, 2, 3), part, len(PARTS)))
     return out
 
@@ -214,6 +253,6 @@ BOUNDS = {"quick": {"classes": 8, "context_patterns": PATTERNS, "operation_slots
           "thorough": {"classes": 8, "context_patterns": PATTERNS, "operation_slots": 3, "slot_operations": SLOT_OPS}}
 ASSUMPTIONS = [
     "`prog`: every selector is finite and decided by the solver's path tree; the decided program then runs the real code natively with concrete leaves (exhaustive enumeration of the bounded program space, not a symbolic claim over values); `values` keeps the leaves symbolic",
-    "environment models of vf/env_model.py; default buffer capacity (no forced flush)",
+    "environment models of vf/env_model.py; default buffer capacity except in the four patterns with capacity 1 (there the file may be written before the exit, everything else is demanded unchanged)",
 ]
-OUTSIDE = ["more than 3 operations", "context nesting deeper than 2", "capacity-forced flushes (C15)", "several objects on one file (C06)"]
+OUTSIDE = ["more than 3 operations", "context nesting deeper than 2", "capacities other than default and 1", "several objects on one file (C06)"]
